@@ -65,9 +65,17 @@ PROGRAMS = {
                 'class Pat<dag p, dag r> { dag Pattern = p; dag Result = r; }\ndef : Pat<(set GPR:$d, (add GPR:$a, GPR:$b)), (add GPR:$a, GPR:$b)>;'),
     # an `!if` / `!cond` whose other branch is "nothing" (`?`, `[]`): the result has the type of the branch that says something
     "if_or_nothing": ('class Reg<int n> { int Num = n; }\ndef R0 : Reg<0>; def R1 : Reg<1>;\ndefvar enabled = 1;\n'
-                      'def u { int first = !if(enabled, R0, ?).Num; int second = !if(enabled, ?, R1).Num; list<int> l = !if(enabled, [1, 2], []); list<int> m = !if(enabled, [], [3]); '
+                      'def u { Reg first = !if(enabled, R0, ?); Reg second = !if(enabled, ?, R1); list<int> l = !if(enabled, [1, 2], []); list<int> m = !if(enabled, [], [3]); '
                       'string s = !if(enabled, "a", ?); }\n'
-                      'defvar pick = !if(enabled, R1, ?);\ndef Alias : Reg<pick.Num>;\ndefvar chosen = !if(enabled, [R0, R1], []);\nforeach r = chosen in { def X#r.Num : Reg<r.Num>; }'),
+                      'defvar pick = !if(enabled, R1, R0);\ndef Alias : Reg<pick.Num>;\ndefvar chosen = !if(enabled, [R0, R1], []<Reg>);\nforeach r = chosen in { def X#r.Num : Reg<r.Num>; }'),
+    # two records meet in the first DIRECT parent of the first that the second derives from, before any ancestor of an earlier
+    # parent is considered (no class is inherited twice: llvm-tblgen rejects diamonds)
+    "common_class_second_parent": ('class R1; class P1 : R1; class P2 { int p = 2; } class P3 : R1;\ndef A : P1, P2;\ndef B : P2, P3;\n'
+                                   'class Use<bit c> { P2 x = !if(c, A, B); P2 y = !if(c, B, A); int z = !if(c, A, B).p; }\n'
+                                   'def L { list<P2> l = [A, B]; list<P2> m = [B, A]; list<P2> n = !listconcat([A], [B]); }\n'
+                                   'class Hold<int v> { int h = v; }\nforeach d = [A, B] in def : Hold<d.p>;'),
+    "common_class_two_levels": ('class R1; class M1 : R1; class L1 : M1; class Q { int q = 1; } class M3 : R1;\ndef a : L1, Q; def b : Q, M3;\n'
+                                'def u { Q x = !if(1, a, b); int y = !if(1, a, b).q; list<Q> l = [a, b]; }'),
     "named_targs": 'class A<int x, int y = 2, string z = "q"> { int s = !add(x, y); string t = z; } def a : A<1>; def b : A<1, 3>; def c : A<1, 3, "w">;',
     "nested_foreach": 'class A<int i, int j> { int s = !mul(i, j); } foreach i = [1, 2] in foreach j = [3, 4] in def p#i#_#j : A<i, j>;',
     "defvar_scopes": 'defvar base = 10; class A<int n> { int v = !add(n, base); } foreach i = [1,2] in { defvar k = !add(i, base); def d#i : A<k>; }',
